@@ -29,6 +29,17 @@ type Tsig struct {
 	OrigID     uint16
 	Error      uint16
 	OtherData  []byte
+	// OtherLenOverride, when non-nil, is the Other Len value to put on the wire / into the digest
+	// instead of len(OtherData). Only the lenient reading of ParseTsig sets it (a record whose
+	// RDATA stops right after a non-zero Other Len).
+	OtherLenOverride *uint16
+}
+
+func (t *Tsig) otherLen() uint16 {
+	if t.OtherLenOverride != nil {
+		return *t.OtherLenOverride
+	}
+	return uint16(len(t.OtherData))
 }
 
 func appendU48(b []byte, v uint64) []byte {
@@ -45,7 +56,7 @@ func (t *Tsig) Rdata() []byte {
 	b = append(b, t.MAC...)
 	b = binary.BigEndian.AppendUint16(b, t.OrigID)
 	b = binary.BigEndian.AppendUint16(b, t.Error)
-	b = binary.BigEndian.AppendUint16(b, uint16(len(t.OtherData)))
+	b = binary.BigEndian.AppendUint16(b, t.otherLen())
 	return append(b, t.OtherData...)
 }
 
@@ -59,8 +70,9 @@ func (t *Tsig) AppendTo(msg []byte) []byte {
 
 // ParseTsig reads the TSIG record located at rr. With lenient false the RDATA must consist of
 // exactly the fields of RFC 8945 4.2. With lenient true an RDATA that stops after Original ID or
-// after Error is read with the missing trailing fields as zero (used only to classify what a
-// decoder that stops at field boundaries saw; never as the reference verdict).
+// after Error is read with the missing trailing fields as zero, and an RDATA that stops right
+// after a non-zero Other Len is read as having that Other Len and no Other Data (used only to
+// classify what a decoder that stops at field boundaries saw; never as the reference verdict).
 func ParseTsig(msg []byte, rr RR, lenient bool) (*Tsig, error) {
 	if rr.Type != TypeTSIG {
 		return nil, errors.New("ref: not a TSIG record")
@@ -103,6 +115,11 @@ func ParseTsig(msg []byte, rr RR, lenient bool) (*Tsig, error) {
 	}
 	ol := int(binary.BigEndian.Uint16(msg[off:]))
 	off += 2
+	if lenient && off == rr.End && ol > 0 {
+		v := uint16(ol)
+		t.OtherLenOverride = &v
+		return t, nil
+	}
 	if !need(ol) {
 		return nil, bad
 	}
@@ -145,7 +162,7 @@ func TsigDigestInput(reqMAC []byte, msgWithoutTsig []byte, t *Tsig, timersOnly b
 	d = appendU48(d, t.TimeSigned)
 	d = binary.BigEndian.AppendUint16(d, t.Fudge)
 	d = binary.BigEndian.AppendUint16(d, t.Error)
-	d = binary.BigEndian.AppendUint16(d, uint16(len(t.OtherData)))
+	d = binary.BigEndian.AppendUint16(d, t.otherLen())
 	return append(d, t.OtherData...)
 }
 
